@@ -54,7 +54,7 @@ CHECKS = {
          "DESIGN.md §6 C09", "simx"),
  "C10": ("model_checking",
          "explicit-state breadth-first search of the complete reachable state graph of the real ChannelSlots (via probe) with a reference set, counter-boundary sequences in child processes, plus deviation-bounded exploration of open/close/call sequences on a live connection",
-         "Complete reachable state graph for channel_max 1..3 (thorough: 4) under open(Some(i)) for every i in 0..=max+1, open(None), close, close of a non-open id, failing slot construction and drain; every transition is judged against the statement and the open set compared with a reference set. The u16 boundary (channel_max 65535, counter at 65533..65535, all ids open) is driven by real calls in child processes with a wall limit so that a spinning allocator is a verdict. simx scenario ids: four sequences of open_channel(None/Some), calls and closes through the real Connection and I/O thread with channel_max 1, 2, 3 and 65535 (ids 0, max, max+1, reopened ids, exhaustion, reuse), results compared with a set-of-open-ids reference, within 1 (thorough 2) deviations.",
+         "Complete reachable state graph for channel_max 1..3 (thorough: 4) under open(Some(i)) for every i in 0..=max+1, open(None), close, close of a non-open id, failing slot construction and drain; every transition is judged against the statement and the open set compared with a reference set. The u16 boundary (channel_max 65535, counter at 65533..65535, all ids open) is driven by real calls in child processes with a wall limit so that a spinning allocator is a verdict. simx scenario ids: four sequences of open_channel(None/Some), calls and closes through the real Connection and I/O thread with channel_max 1, 2, 3 and 65535 (ids 0, max, max+1, reopened ids, exhaustion, reuse), results compared with a set-of-open-ids reference, within 1 (thorough 2) deviations; and the throttle scenario of C18 as a third part (a channel opened, used and closed while the other channels are throttled).",
          "The complete state graph is that of ChannelSlots behind a probe (channel_max <= 4); the live-connection part runs four fixed sequences.",
          "DESIGN.md §6 C10", "seqx+simx"),
  "C11": ("model_checking",
